@@ -286,6 +286,67 @@ pub fn run(run: Run) -> ! {
             }
         }
     }
+    // user-built Bezier curves (`CubicBezierEasing::new`, documented for use in Easing::Custom): a grid of control
+    // points, judged like the built-ins - the CSS definition, or (recorded finding F5) the curve's y sampled at
+    // parameter x; anything else is a new violation
+    {
+        let xs = [0.0f32, 0.25, 0.3, 0.5, 0.7, 1.0];
+        let ys = [-0.5f32, 0.0, 0.2, 0.5, 1.0, 1.5];
+        let (mut curves, mut param_family, mut worst): (u64, u64, (f64, [f32; 4], f32)) = (0, 0, (0.0, [0.0; 4], 0.0));
+        for &x1 in &xs {
+            for &y1 in &ys {
+                for &x2 in &xs {
+                    for &y2 in &ys {
+                        curves += 1;
+                        let cb = mina_core::easing::CubicBezierEasing::new(x1, y1, x2, y2);
+                        let via = Easing::Custom(Box::new(cb.clone()));
+                        let cp = [x1 as f64, y1 as f64, x2 as f64, y2 as f64];
+                        let (mut def_fail, mut param_fail, mut passthrough_fail) = (0u32, 0u32, 0u32);
+                        let mut at = 0.0f32;
+                        for j in 0..=256 {
+                            let x = j as f32 / 256.0;
+                            let y = cb.calc(x);
+                            if via.calc(x).to_bits() != y.to_bits() {
+                                passthrough_fail += 1;
+                            }
+                            let perr = (y as f64 - bez(cp[1], cp[3], x as f64)).abs();
+                            let derr = (y as f64 - definition(&cp, x as f64)).abs();
+                            if perr > 3e-6 {
+                                param_fail += 1;
+                            }
+                            if derr > 1e-4 {
+                                def_fail += 1;
+                                if derr > worst.0 {
+                                    worst = (derr, [x1, y1, x2, y2], x);
+                                }
+                                if at == 0.0 {
+                                    at = x;
+                                }
+                            }
+                        }
+                        acc.evals += 257;
+                        let rank = (1u64 << 40) | curves;
+                        if passthrough_fail > 0 {
+                            acc.sink.add("custom-not-passed-through:CubicBezierEasing", rank, || (format!("Easing::Custom(CubicBezierEasing::new({x1},{y1},{x2},{y2})) differs from the curve itself at {passthrough_fail} points"), json!({"control_points": cp})));
+                        }
+                        if def_fail > 0 && param_fail > 0 {
+                            acc.sink.add("definition:other:CubicBezierEasing", rank, || {
+                                (format!("CubicBezierEasing::new({x1},{y1},{x2},{y2}).calc({at}) = {}: neither the cubic-bezier definition ({}) nor the curve's y at parameter x ({}); {def_fail} / {param_fail} of 257 points differ", cb.calc(at), definition(&cp, at as f64), bez(cp[1], cp[3], at as f64)), json!({"control_points": cp, "x": fj(at)}))
+                            });
+                        } else if def_fail > 0 {
+                            param_family += 1;
+                        }
+                    }
+                }
+            }
+        }
+        if param_family > 0 {
+            let (derr, c, x) = worst;
+            acc.sink.add("definition:parametric:CubicBezierEasing", 0, || {
+                (format!("{param_family} of {curves} user-built curves: CubicBezierEasing::new(x1,y1,x2,y2).calc(x) equals the curve's y sampled at PARAMETER x, not the cubic-bezier timing function (largest deviation {derr:.4} for ({},{},{},{}) at x={x})", c[0], c[1], c[2], c[3]), json!({"curves": curves, "curves_following_the_parametric_reading": param_family}))
+            });
+        }
+    }
     // mirrors on a grid (quick 2^16+1 points; thorough 2^22+1)
     let n = if thorough { 1u32 << 22 } else { 1u32 << 16 };
     let macc = par_fold(
@@ -369,7 +430,7 @@ pub fn run(run: Run) -> ! {
     cov.insert("traces_validated_against_impl".into(), json!(acc.per.iter().map(|p| p.def_checked).sum::<u64>()));
     cov.insert("evaluations".into(), json!(acc.evals));
     cov.insert("distinct_nontrivial".into(), json!(pts));
-    cov.insert("rule".into(), json!(if thorough { "ALL 1 065 353 217 f32 values of [0,1] x 29 built-in easings (definition reference at every 16th value and wherever the parametric reading is not matched); mirrors on a 2^22 grid; non-trivial = (easing, x) evaluations" } else { "every 64th f32 bit pattern of [0,1] (1.66e7 points) plus the 4096 patterns next to 0 and next to 1 and 1024 around 1/2,1/4,3/4,0.1,0.3,0.9, x 29 built-in easings; mirrors on a 2^16 grid; non-trivial = (easing, x) evaluations" }));
+    cov.insert("rule".into(), json!(if thorough { "ALL 1 065 353 217 f32 values of [0,1] x 29 built-in easings (definition reference at every 16th value and wherever the parametric reading is not matched); 1296 user-built CubicBezierEasing curves on a 1/256 grid; mirrors on a 2^22 grid; non-trivial = (easing, x) evaluations" } else { "every 64th f32 bit pattern of [0,1] (1.66e7 points) plus the 4096 patterns next to 0 and next to 1 and 1024 around 1/2,1/4,3/4,0.1,0.3,0.9, x 29 built-in easings; 1296 user-built CubicBezierEasing curves (control points x in {0,.25,.3,.5,.7,1}, y in {-.5,0,.2,.5,1,1.5}) on a 1/256 grid, directly and through Easing::Custom; mirrors on a 2^16 grid; non-trivial = (easing, x) evaluations" }));
     cov.insert("exhaustive".into(), json!(true));
     cov.insert("oracles".into(), json!("calc(0)==0, calc(1)==1 exactly; non-Back: 0<=y<=1 and y(next x) >= y(x) - 2 ulp; Linear identity bit-for-bit; |Out(x) - (1-In(1-x))| <= 1e-5 and InOut self-mirror; Custom(f) == f bit-for-bit directly and through a timeline; definition: |calc(x) - B_y(t*)| <= 1e-4 with B_x(t*) = x from an independent control-point table"));
     cov.insert("per_easing_definition_summary".into(), json!(def_summary));
